@@ -14,7 +14,7 @@ pub static DEF: PropDef = PropDef {
     engine: "wfsim conc",
     level: "exploration",
     rule: "one run = T in {2,4,16,64} tasks (real OS threads, one baton) released together, each performing 1-8 steps over {execute filter i on context j, execute value expression, recompile filter i from a clone of its AST and execute, clone / drop scheme and AST, serialise AST} on 1-6 generated filters (regex, wildcard, contains, in {..}, in $list, [*] with any/all, function calls with memoised extra arguments, boolean combinations) and 1-4 contexts (shared through Arc and / or per task), interleaved by the seeded scheduler at every compiled-node entry (SimCompiler) and harness callback; every result is compared with a sequential baseline computed before, and the baseline is recomputed afterwards in another order; optional injected panic in one execution; non-trivial = at least one pre-emption happened while >= 2 tasks were inside an execution; distinct = distinct choice tapes; thorough adds Miri (data races / UB below node granularity) over many interpreter seeds",
-    runs_quick: 14_000,
+    runs_quick: 10_000,
     runs_thorough: 500_000,
     directed: 0,
     env_groups: true,
@@ -361,8 +361,8 @@ fn extra(tier: Tier, seed: u64) -> ExtraResult {
         out.coverage.insert("miri".into(), serde_json::json!("switched off by VERIF_MIRI=0"));
         return out;
     }
-    // quick: 2 x 16 interpreter seeds (about 20 s); thorough: 2 x 64
-    let default_seeds = if tier == Tier::Thorough { 64 } else { 16 };
+    // quick: 24 interpreter seeds of one workload variant (about 30 s); thorough: 2 x 64
+    let default_seeds = if tier == Tier::Thorough { 64 } else { 24 };
     crate::miri::run_miri(seed, default_seeds, &mut out);
     out
 }
